@@ -22,7 +22,7 @@ func registerC04() {
 			"XOR patterns of span <= 16 bits starting at p that stay clear of byte 0 and bytes 4-7: quick = all 1- and 2-bit patterns at every position plus all 2^15 patterns at " +
 			"every 29th position, thorough = all 2^15 patterns at every position; Decode (every fifth time with the unknown-item options and a logger) and CheckIntegrity must both return an error. Family headers: header sizes x protocol " +
 			"versions x profile versions x stored CRC {correct, 0, each single-bit error, PRNG} and every single-byte corruption of bytes 1-3, 8-13 of a correct 14-byte header, " +
-			"each inside an otherwise valid file with recomputed file CRC: CheckIntegrity(headerOnly), DecodeHeader, Decode and Header.CheckIntegrity must all agree with the " +
+			"each inside an otherwise valid file with recomputed file CRC: CheckIntegrity(headerOnly), DecodeHeader, Decode and Header.CheckIntegrity - and DecodeHeaderAndFileID, DecodeChained and CheckIntegrity over the whole file, which read the header on their way - must all agree with the " +
 			"reference verdict. Family large-bursts: model streams of 5-120 KB and the device files up to 400 KB, each corrupted at 400 (quick) / 3000 (thorough) PRNG bit positions (concentrated around the decoder's 4096-byte buffer boundaries, record boundaries and the trailing CRC) with PRNG burst patterns of span <= 16. Family accepted: every output of a successful Encode of an API-built File (into a plain buffer, a file on disk, a bytes.Buffer already holding data, a bufio.Writer, a seekable in-memory writer; 12- and 14-byte headers) must pass CheckIntegrity; streams Decode accepts (model, device, Encode output, and model streams padded to data sizes at and around multiples of the 4096-byte read buffer) must pass CheckIntegrity. A case is one corrupted file; distinct by construction",
 		Assume:        []string{"'contiguous bits' are contiguous in the order the reflected CRC consumes them (LSB first); any error counts as detection"},
 		MinNontrivial: 20000,
@@ -256,7 +256,7 @@ func judgeHeader(c *lib.Ctx, h []byte, rest []byte, what string) bool {
 	crc := ref.CRC(file)
 	file = append(file, byte(crc), byte(crc>>8))
 	want := headerVerdict(h)
-	var e1, e2, e3, e4 error
+	var e1, e2, e3, e4, e5, e6, e7 error
 	o := lib.Guard(func() {
 		e1 = fit.CheckIntegrity(bytes.NewReader(file), true)
 		_, e2 = fit.DecodeHeader(bytes.NewReader(file))
@@ -268,17 +268,21 @@ func judgeHeader(c *lib.Ctx, h []byte, rest []byte, what string) bool {
 			hd.CRC = uint16(h[12]) | uint16(h[13])<<8
 		}
 		e4 = hd.CheckIntegrity()
+		// the other entry points that read a header on their way
+		_, _, e5 = fit.DecodeHeaderAndFileID(bytes.NewReader(file))
+		_, e6 = fit.DecodeChained(bytes.NewReader(file))
+		e7 = fit.CheckIntegrity(bytes.NewReader(file), false)
 	})
-	c.EvalN(4)
+	c.EvalN(7)
 	if o.Panicked || o.Hang {
 		c.Violation(file, "%s: panic: %s", what, o.Panic)
 		return false
 	}
-	got := []bool{e1 == nil, e2 == nil, e3 == nil, e4 == nil}
-	names := []string{"CheckIntegrity(headerOnly)", "DecodeHeader", "Decode", "Header.CheckIntegrity"}
+	got := []bool{e1 == nil, e2 == nil, e3 == nil, e4 == nil, e5 == nil, e6 == nil, e7 == nil}
+	names := []string{"CheckIntegrity(headerOnly)", "DecodeHeader", "Decode", "Header.CheckIntegrity", "DecodeHeaderAndFileID", "DecodeChained", "CheckIntegrity(whole file)"}
 	for i := range got {
 		if got[i] != want {
-			c.Violation(file, "%s (header % x): %s accepts=%v, the reference verdict is accept=%v (errors: %v | %v | %v | %v)", what, h, names[i], got[i], want, e1, e2, e3, e4)
+			c.Violation(file, "%s (header % x): %s accepts=%v, the reference verdict is accept=%v (errors: %v | %v | %v | %v | %v | %v | %v)", what, h, names[i], got[i], want, e1, e2, e3, e4, e5, e6, e7)
 			return false
 		}
 	}
